@@ -57,6 +57,22 @@ def run(pid, tier, selftest, assumptions):
         text, file_level = layoutlib.apply_pattern(e, p)
         docs.append((text, True))
         meta.append({"e": e, "pat": p, "file_level_comment": file_level})
+    if pid in ("C01", "C02"):
+        # IF_DATA content that no definition describes must pass through with its tokens intact (details: C18)
+        import a2mlgen
+        payloads = {
+            "mixed": ["VENDOR", "1", "0x1FFFFFFFF", "4294967297", "0.1", "-7", "1e30", '"s"', "idnt", "/begin", "B", "2", "/begin", "C", "/end", "C", "/end", "B"],
+            "repeated_blocks": ["/begin", "SEGMENT", "1", "/end", "SEGMENT", "/begin", "SEGMENT", "2", "/end", "SEGMENT", "/begin", "SEGMENT", "3", "/end", "SEGMENT"],
+            "tagged_repeated": ["ETK", "/begin", "SEG", "1", "/end", "SEG", "/begin", "SEG", "2", "/end", "SEG", "/begin", "OTHER", "/end", "OTHER", "/begin", "SEG", "3", "/end", "SEG"],
+            "wide": ["X", "18446744073709551615", "-9223372036854775808", "0xFFFFFFFFFFFFFFFF", "123456789.125", "0.30000000000000004"],
+            "plain": ["1", "2", '"x"'],
+            "tag_only": ["TAG_ONLY"],
+            "empty": [],
+        }
+        for name, toks in payloads.items():
+            for site in a2mlgen.SITES:
+                docs.append((a2mlgen.document(None, [(site, toks)]), False))
+                meta.append({"e": "ifdata:" + site, "pat": {"fam": "ifdata", "cmt": name}, "file_level_comment": False})
     # value classes per parameter type (C01, C02): the literal catalogue of MC_ParserCases
     nvalue = 0
     vrej = {}
@@ -147,6 +163,25 @@ def run(pid, tier, selftest, assumptions):
         binding = {"moved_token_rejected_by_C05": 1 in outs["C05"], "text_drift_rejected_by_C01": 2 in outs["C01"], "lost_token_rejected_by_C02": 3 in outs["C02"]}
         if not all(binding.values()):
             vlib.tool_error(f"binding selftest failed: {binding} {outs}")
+    # edits through the API (C05: edit locality; C01: models built / edited through the API): Edit.tla
+    edit_cov = None
+    if pid in ("C01", "C05"):
+        import editcheck
+        me = vlib.tlc("MC_Edit", cfg="MC_Edit_Thorough" if tier == "thorough" else "MC_Edit", workers=8, coverage=False, timeout=1800)
+        if me.violation:
+            rep.violation(f"edit-spec:{me.violation}", "TLC: the writer order of Edit.tla does not give edit locality / reload equality", {"kind": "tlc-edit"})
+        mu = vlib.tlc("MC_Edit", cfg="MC_Edit_Unstable", workers=4, coverage=False, timeout=900, expect_violation=True)
+        if mu.violation != "ReloadEqual":
+            vlib.tool_error("expected-violation configuration MC_Edit_Unstable did not fail")
+        eev, erej, eops, etr = editcheck.run(pid, tier, rep, binp)
+        if len(eev) < 300:
+            vlib.tool_error(f"vacuity: only {len(eev)} edits")
+        edit_cov = {"abstract_states": me.distinct, "edits_judged": len(eev), "edits_by_op": eops, "edits_rejected": len(erej),
+                    "expected_violation_config": {"cfg": "MC_Edit_Unstable", "violated": mu.violation}}
+        if selftest or tier == "thorough":
+            if not editcheck.selftest(pid):
+                vlib.tool_error("binding selftest of Trace_Edit failed")
+            edit_cov["binding_mutation_rejected"] = True
     fams = {}
     for m in meta:
         fams[m["pat"]["fam"] + "/" + m["pat"]["cmt"]] = fams.get(m["pat"]["fam"] + "/" + m["pat"]["cmt"], 0) + 1
@@ -169,6 +204,9 @@ def run(pid, tier, selftest, assumptions):
     }
     if binding:
         cov["binding_mutations_rejected"] = binding
+    if edit_cov:
+        cov["api_edits"] = edit_cov
+        cov["traces_validated_against_impl"] += edit_cov["edits_judged"]
     vlib.write_evidence(pid, tier, "model_checking", cov, assumptions, time.time() - t0, rep.count_new)
     return rep.exit_code()
 
@@ -179,7 +217,14 @@ def replay(pid, path):
     rep = vlib.Reporter(pid)
     binp = vlib.build_harness()
     case = r["case"]
-    if case.get("kind") == "tlc":
+    if case.get("kind") == "edit":
+        import editcheck
+        editcheck.replay_case(pid, case, rep, binp)
+    elif case.get("kind") == "tlc-edit":
+        me = vlib.tlc("MC_Edit", cfg="MC_Edit", workers=8, coverage=False, timeout=1800, expect_violation=True)
+        if me.violation:
+            rep.violation(f"edit-spec:{me.violation}", "TLC property violated", case)
+    elif case.get("kind") == "tlc":
         d1 = vlib.tlc("MC_Layout", workers=12, coverage=False, timeout=900, expect_violation=True)
         if d1.violation:
             rep.violation(f"layout-spec:{d1.violation}", "TLC property violated", case)
